@@ -57,6 +57,7 @@ def main():
     ap.add_argument("--only", default="")
     ap.add_argument("--patch"); ap.add_argument("--props", default="")
     ap.add_argument("--out", default=os.path.join(HERE, "last_run.json"))
+    ap.add_argument("--merge", action="store_true", help="replace only the entries that were re-run in --out")
     a = ap.parse_args()
     ensure_scratch()
     # evidence files are overwritten by these runs: save and restore the committed ones
@@ -89,6 +90,13 @@ def main():
             results.append(rec)
     finally:
         reset()
+    if a.merge and os.path.exists(a.out):
+        old = json.load(open(a.out))
+        ids = {r["id"] for r in results}
+        order = [r["id"] for r in old]
+        merged = {r["id"]: r for r in old}
+        merged.update({r["id"]: r for r in results})
+        results = [merged[i] for i in order] + [r for r in results if r["id"] not in order]
     json.dump(results, open(a.out, "w"), indent=1)
     missed = [(r["id"], p) for r in results for p, c in r.get("checks", {}).items() if c["exit"] != 1]
     print("mutants: %d, missed/inconclusive: %s" % (len(results), missed))
